@@ -275,23 +275,43 @@ inline void runC07(Ctx &c)
                 }
                 c.event("evaluation.on_used_workspace");
             }
+            if (r.coin(0.3))
+            {
+                VectorXd xa = r.coin() ? x : genDecisionVector(r, oc, rig);
+                (void)abortedEvaluation(c, r, *rig.opt, oc, eo, xa);
+            }
+            if (r.coin(0.3))
+            {
+                // executors need not visit the segments in ascending order
+                eo.executor = 2;
+                eo.perm.resize(cl.N);
+                for (int i = 0; i < cl.N; ++i)
+                    eo.perm[i] = i;
+                if (r.coin())
+                    std::reverse(eo.perm.begin(), eo.perm.end());
+                else
+                    r.shuffle(eo.perm);
+                eo.threeCosts = true; // harness executors go through the primary overload
+                c.event("executor.permuted");
+            }
+            const bool threeJudged = eo.threeCosts;
             double cost = rig.opt->evaluate(x, grad, oc.prog, eo);
             int total = 0;
             layoutModel(oc, *rig.env, rig.smH, &total);
             if (!c.require("C07.gradient_size", grad.size() == total && (int)x.size() == total, okey(oc, "shape")))
                 continue;
             c.require("C07.finite", std::isfinite(cost) && allFinite(grad), okey(oc, "finite"));
-            c.event(std::string("overload.") + (three ? "three_costs" : "two_costs"));
+            c.event(std::string("overload.") + (threeJudged ? "three_costs" : "two_costs"));
             c.event("combo." + std::to_string(oc.combo));
             c.event(oc.rho > 0 ? "rho.positive" : "rho.zero");
             c.event("K." + std::to_string(oc.K));
             // the value the FD oracle differentiates is the value evaluate itself returns (fresh object, same x)
             VectorXd g2;
-            double cost2 = evalFresh(oc, x, three, &g2);
+            double cost2 = evalFresh(oc, x, threeJudged, &g2);
             c.require("C07.fresh_object_same_result", bitEqual(cost, cost2) && bitEqualMat(grad, g2), okey(oc, "history"));
             Problem dec = decodeModel(oc, *rig.env, rig.tmH, rig.smH, x);
-            CostBreakdown cb = recomputeCost(oc, dec, three);
-            fdOverX(c, "C07.fd", oc, rig, x, grad, three, r, thorough ? 200 : 40, (double)cb.abssum);
+            CostBreakdown cb = recomputeCost(oc, dec, threeJudged);
+            fdOverX(c, "C07.fd", oc, rig, x, grad, threeJudged, r, thorough ? 200 : 40, (double)cb.abssum);
         }
     }
 }
@@ -342,9 +362,22 @@ inline void runC08(Ctx &c)
                     r.shuffle(eo.perm);
                 c.event("executor.permuted");
             }
+            else if (three && cl.N >= 2 && r.coin(0.25))
+            {
+                // segments processed at the same time on several threads (spawned per call, or a pool older than the call)
+                eo.executor = r.coin() ? 3 : 5;
+                eo.threads = r.range(2, 4);
+                eo.partitionSeed = r.u64();
+                c.event(eo.executor == 3 ? "executor.threads_per_call" : "executor.persistent_pool");
+            }
             if (r.coin(0.4))
                 eo.ws = rig.env->newWorkspace();
             VectorXd grad;
+            if (r.coin(0.25))
+            {
+                VectorXd xa = r.coin() ? x : genDecisionVector(r, oc, rig);
+                (void)abortedEvaluation(c, r, *rig.opt, oc, eo, xa);
+            }
             if (r.coin(0.5))
             {
                 VectorXd xPrev = genDecisionVector(r, oc, rig), gPrev;
@@ -414,7 +447,7 @@ inline void runC08(Ctx &c)
                 for (int d = 0; d < 5; ++d)
                     for (int j = 0; j < dec.dim; ++j)
                     {
-                        PolyVal pv = polyDerivD(&C(sm.seg * nc, j), 1, nc, (LD)sm.t, d);
+                        PolyVal pv = polyDerivD(&C(sm.seg * nc, j), colStride(C), nc, (LD)sm.t, d);
                         st[d][j] = sm.x[d][j];
                         LD diff = fabsl((LD)sm.x[d][j] - pv.value);
                         double rel = diff == 0 ? 0 : (pv.abssum > 0 ? (double)(diff / pv.abssum) : INFINITY);
@@ -447,7 +480,7 @@ inline void runC08(Ctx &c)
                         VectorXd v = fresh->segEval(sm.seg, sm.t, d);
                         for (int j = 0; j < dec.dim; ++j)
                         {
-                            PolyVal pv = polyDerivD(&C(sm.seg * nc, j), 1, nc, (LD)sm.t, d);
+                            PolyVal pv = polyDerivD(&C(sm.seg * nc, j), colStride(C), nc, (LD)sm.t, d);
                             w = std::max(w, scaledDiff(v(j), sm.x[d][j], (double)pv.abssum));
                         }
                     }
@@ -463,7 +496,7 @@ inline void runC08(Ctx &c)
                 for (int j = 0; j < dec.dim; ++j)
                     for (int i = 0; i < dec.N; ++i)
                     {
-                        PolyVal ev = energyExact(&C(i * nc, j), 1, nc, dec.s(), dec.T[i]);
+                        PolyVal ev = energyExact(&C(i * nc, j), colStride(C), nc, dec.s(), dec.T[i]);
                         E += ev.value;
                         Ea += ev.abssum;
                     }
